@@ -1,11 +1,12 @@
 """C11 — correspondence of lean/PyramidModel/Acl.lean with pyramid.authorization.ACLHelper, and the
 property itself evaluated on the implementation (first match wins over the lineage, default deny,
 reported principals are granted)."""
-import itertools, json
+import gc, itertools, json
 
 from pyramid.authorization import (ACLHelper, ACLAuthorizationPolicy, Allow, Deny, Everyone,
                                    Authenticated, ALL_PERMISSIONS)
 import pyramid.security as _psec
+from pyramid.location import lineage as real_lineage, inside as real_inside
 
 # the same abstract ACE can be written with different Python objects; the decision must not depend on which:
 # the all-permissions marker exported by pyramid.authorization or the (deprecated, still exported) one of
@@ -27,7 +28,7 @@ PRINC = [Everyone, 'alice', 'bob', 'group:editors', Authenticated]   # index = m
 PERMS = ['view', 'edit', 'delete']                                      # index = model name
 ACTIONS = [Allow, Deny, 'Maybe']                                        # 2 = neither Allow nor Deny
 
-RULE = ('lineages of 1..5 locations, each without __acl__ / with a static ACL / with a callable ACL of 0..6 '
+RULE = ('lineages of 1..8 locations (deciding ACE placed at every depth), each realised BOTH with plain attribute parents and with LAZY parents (a __parent__ property building a fresh wrapper on every access, nothing else keeping it alive), each without __acl__ / with a static ACL / with a callable ACL of 0..6 '
         'ACEs over {Allow,Deny}x5 principals x {single name, list, ALL_PERMISSIONS}; every case asks permits() '
         'for one principal subset and one permission and principals_allowed_by_permission(); a case is '
         'non-trivial when at least two ACEs of the lineage hit (order decides) or the deciding ACE is not in '
@@ -60,7 +61,80 @@ def build(case, callable_mask=0, variant=0):
     return nodes
 
 
-def impl(case, callable_mask=0, variant=0):
+def build_lazy(case, callable_mask=0, variant=0):
+    """the same lineage with parents COMPUTED ON DEMAND, as ORM-backed resource trees do: `__parent__` is a property that
+    constructs a new wrapper object for the parent on every access; nothing else refers to it, so an ancestor lives only
+    as long as whoever walks the lineage holds it.  (The ACE lists are prebuilt and shared; only the resource objects
+    are fresh.)  Returns the context wrapper; every wrapper knows its depth `_k`."""
+    table = []
+    for k, acl in enumerate(case['lineage']):
+        if acl is None:
+            table.append(None)
+        else:
+            table.append([(ACTIONS[a], PRINC[w], realise_perm(p, variant, 31 * k + j)) for j, (a, w, p) in enumerate(acl)])
+    depth = len(table)
+
+    class Lazy:
+        __slots__ = ('_k',)
+
+        def __init__(self, k):
+            self._k = k
+
+        @property
+        def __name__(self):
+            return 'n%d' % self._k
+
+        @property
+        def __parent__(self):
+            return Lazy(self._k + 1) if self._k + 1 < depth else None
+
+        @property
+        def _aces(self):
+            return table[self._k]
+
+        @property
+        def __acl__(self):
+            aces = table[self._k]
+            if aces is None:
+                raise AttributeError('__acl__')
+            if (callable_mask >> self._k) & 1:
+                return lambda: aces
+            return aces
+    return Lazy(0)
+
+
+def location_check(depth):
+    """pyramid.location.lineage / inside on chains of `depth` locations, both realisations: the lineage lists every
+    ancestor exactly once, context first, whether it is consumed lazily (nobody keeps the ancestors) or into a list;
+    `inside` follows the same chain.  A genuinely CYCLIC __parent__ chain is outside the domain (never generated)."""
+    case = {'lineage': [None] * depth, 'princs': [], 'perm': 0}
+    want = list(range(depth))
+    problems = []
+    nodes = build(case)
+    got = [nodes.index(x) for x in real_lineage(nodes[0])]
+    if got != want:
+        problems.append('lineage of an attribute chain of %d: %s' % (depth, got))
+    for i in range(depth):
+        for j in range(depth):
+            if bool(real_inside(nodes[i], nodes[j])) != (j >= i):
+                problems.append('inside(n%d, n%d) = %s' % (i, j, real_inside(nodes[i], nodes[j])))
+    lazy_walk = []
+    for loc in real_lineage(build_lazy(case)):          # consumed lazily: only `loc` and the generator hold a wrapper
+        lazy_walk.append(loc._k)
+    if lazy_walk != want:
+        problems.append('lineage of a lazily built chain of %d, consumed lazily: %s' % (depth, lazy_walk))
+    eager = [loc._k for loc in list(real_lineage(build_lazy(case)))]
+    if eager != want:
+        problems.append('lineage of a lazily built chain of %d, consumed into a list: %s' % (depth, eager))
+    ctx = build_lazy(case)
+    if not real_inside(ctx, ctx) or (depth > 1 and real_inside(ctx, ctx.__parent__)):
+        problems.append('inside() on a lazily built chain (identity of fresh wrappers)')
+    return problems
+
+
+def impl(case, callable_mask=0, variant=0, lazy=False):
+    if lazy:
+        return impl_lazy(case, callable_mask, variant)
     nodes = build(case, callable_mask, variant)
     ctx_obj = nodes[0]
     princs = [PRINC[i] for i in case['princs']]
@@ -76,6 +150,24 @@ def impl(case, callable_mask=0, variant=0):
     pol = ACLAuthorizationPolicy()
     r2 = pol.permits(ctx_obj, princs, perm)
     granted = {p: bool(helper.permits(ctx_obj, [p, Everyone], perm)) for p in allowed}
+    return {'permits': bool(r), 'at': at, 'allowed': sorted(PRINC.index(p) for p in allowed),
+            'policy_agrees': bool(r2) == bool(r), 'allowed_granted': all(granted.values()),
+            'type_ok': type(r).__name__ == ('ACLAllowed' if r else 'ACLDenied')}
+
+
+def impl_lazy(case, callable_mask=0, variant=0):
+    princs = [PRINC[i] for i in case['princs']]
+    perm = PERMS[case['perm']]
+    helper = ACLHelper()
+    r = helper.permits(build_lazy(case, callable_mask, variant), princs, perm)
+    at = None
+    if not isinstance(r.ace, str):
+        k = r.context._k
+        i = [j for j, ace in enumerate(r.context._aces) if ace is r.ace][0]
+        at = [k, i]
+    allowed = helper.principals_allowed_by_permission(build_lazy(case, callable_mask, variant), perm)
+    r2 = ACLAuthorizationPolicy().permits(build_lazy(case, callable_mask, variant), princs, perm)
+    granted = {p: bool(helper.permits(build_lazy(case, callable_mask, variant), [p, Everyone], perm)) for p in allowed}
     return {'permits': bool(r), 'at': at, 'allowed': sorted(PRINC.index(p) for p in allowed),
             'policy_agrees': bool(r2) == bool(r), 'allowed_granted': all(granted.values()),
             'type_ok': type(r).__name__ == ('ACLAllowed' if r else 'ACLDenied')}
@@ -104,7 +196,7 @@ def hits(case):
 
 
 def gen_case(rng, allow_other=False):
-    depth = rng.choice([1, 1, 2, 2, 3, 3, 4, 5])
+    depth = rng.choice([1, 1, 2, 2, 3, 3, 4, 5, 6, 7, 8])
     lineage = []
     for _ in range(depth):
         r = rng.random()
@@ -130,6 +222,39 @@ def gen_case(rng, allow_other=False):
     return {'lineage': lineage, 'princs': princs, 'perm': rng.randrange(3)}
 
 
+def gen_deep_case(rng):
+    """lineage of 1..8 locations with the DECIDING ACE at a chosen depth: every location nearer to the context has no
+    ACL, an empty one, or ACEs that do not match the asked principals/permission"""
+    depth = rng.randint(1, 8)
+    at = rng.randrange(depth)
+    perm = rng.randrange(3)
+    princs = sorted(rng.sample(range(5), rng.randint(1, 3)))
+    others = [w for w in range(5) if w not in princs]
+    operm = [p for p in range(3) if p != perm]
+    lineage = []
+    for k in range(depth):
+        if k < at:
+            r = rng.random()
+            if r < 0.4:
+                lineage.append(None)
+            elif r < 0.55:
+                lineage.append([])
+            else:
+                acl = []
+                for _ in range(rng.randint(1, 3)):
+                    if others and rng.random() < 0.5:
+                        acl.append([rng.choice([0, 1]), rng.choice(others), rng.choice([perm, 'all', [perm]])])
+                    else:
+                        acl.append([rng.choice([0, 1]), rng.choice(range(5)), rng.choice([rng.choice(operm), [rng.choice(operm)], []])])
+                lineage.append(acl)
+        elif k == at:
+            hit = [rng.choice([0, 0, 1]), rng.choice(princs), rng.choice([perm, 'all', [perm, rng.choice(operm)]])]
+            lineage.append([hit] + ([[rng.choice([0, 1]), rng.choice(range(5)), rng.randrange(3)]] if rng.random() < 0.4 else []))
+        else:
+            lineage.append(gen_case(rng)['lineage'][0])
+    return {'lineage': lineage, 'princs': princs, 'perm': perm}
+
+
 def check_case(case, model_out, mask):
     """returns (mismatch|None, violation|None)"""
     got = impl(case, mask)
@@ -140,6 +265,12 @@ def check_case(case, model_out, mask):
     if any(alt[k] != got[k] for k in ('permits', 'at', 'allowed', 'policy_agrees', 'type_ok', 'allowed_granted')):
         got = alt          # report the deviating realisation; the spec/model comparison below then flags it
         got['realisation'] = 'variant (pyramid.security marker / tuple-set-frozenset permission collections)'
+    else:
+        # the same lineage with parents computed on demand (fresh wrapper per access, ancestors not kept alive)
+        lz = impl(case, mask, lazy=True)
+        if any(lz[k] != got[k] for k in ('permits', 'at', 'allowed', 'policy_agrees', 'type_ok', 'allowed_granted')):
+            got = lz
+            got['realisation'] = 'lazy parents (__parent__ property building a fresh wrapper on every access)'
     if got['permits'] != exp or not got['policy_agrees'] or not got['type_ok']:
         viol = {'case': case, 'impl': got, 'expected': {'permits': exp}, 'detail': 'permits() is not the decision of the first matching ACE'}
     elif wf(case) and not got['allowed_granted']:
@@ -158,13 +289,23 @@ def run(ctx):
     cases = [c for _, c in ctx.corpus()]
     ncorpus = len(cases)
     cases += [gen_case(rng, allow_other=(i % 10 == 9)) for i in range(n)]
+    cases += [gen_deep_case(rng) for _ in range(ctx.n(2500, 60000))]
     masks = [rng.randrange(32) if rng.random() < 0.3 else 0 for _ in cases]
     model = ctx.run_model(cases) if ctx.driver_path else [None] * len(cases)
     mism, viol, agree = [], [], 0
     seen, nontriv = set(), set()
     dist = {'depth': {}, 'hits': {}, 'decided_by': {'allow': 0, 'deny': 0, 'default': 0, 'other': 0}, 'callable_acl_cases': 0,
             'outside_domain_cases': 0, 'allowed_set_sizes': {}}
-    for case, mo, mask in zip(cases, model, masks):
+    dist['decided_at_depth'] = {}
+    # pyramid.location.lineage / inside themselves, both realisations, every depth 1..8
+    for depth in range(1, 9):
+        probs = location_check(depth)
+        if probs:
+            viol.append({'case': {'lineage': [None] * depth, 'princs': [], 'perm': 0, 'stream': 'location'}, 'impl': probs,
+                         'expected': 'every ancestor once, context first', 'detail': 'pyramid.location: ' + probs[0]})
+    for ci, (case, mo, mask) in enumerate(zip(cases, model, masks)):
+        if ci % 2000 == 1999:
+            gc.collect()
         m, v = check_case(case, mo, mask)
         if m: mism.append(m)
         elif mo is not None: agree += 1
@@ -176,6 +317,7 @@ def run(ctx):
         if mask: dist['callable_acl_cases'] += 1
         if not wf(case): dist['outside_domain_cases'] += 1
         if h:
+            dist['decided_at_depth'][h[0][0]] = dist['decided_at_depth'].get(h[0][0], 0) + 1
             a = case['lineage'][h[0][0]][h[0][1]][0]
             dist['decided_by'][['allow', 'deny', 'other'][a]] += 1
         else:
@@ -194,7 +336,7 @@ def run(ctx):
             'samples': cases[ncorpus:ncorpus + 3] + cases[-2:], 'mismatches': mism, 'violations': viol,
             'distribution': dist, 'notes': notes,
             'assumptions': ['principals/permissions are compared by ==/hash as Python does; the model uses abstract names',
-                            'zope/pyramid `lineage()` (the __parent__ chain) is trusted']}
+                            'pyramid `lineage()` yields the __parent__ chain: exercised with attribute parents AND with parents built on demand (a small stream checks lineage/inside directly); a genuinely cyclic __parent__ chain is outside the domain']}
 
 
 def search(ctx):
@@ -203,6 +345,23 @@ def search(ctx):
     aces = [[a, w, p] for a in (0, 1) for w in (0, 1) for p in (0, 1, [0, 1], 'all')]
     acls = [None, []] + [[x] for x in aces] + [[x, y] for x in aces for y in aces]
     viol, n = [], 0
+    # one deciding ACE (Allow / Deny) at every depth of lineages of 1..8 locations, the locations before it without ACL or
+    # with an empty / non-matching one; both realisations are compared inside check_case
+    for depth in range(1, 9):
+        for probs in [location_check(depth)]:
+            if probs:
+                viol.append({'case': {'lineage': [None] * depth, 'princs': [], 'perm': 0, 'stream': 'location'}, 'impl': probs,
+                             'expected': 'every ancestor once, context first', 'detail': 'pyramid.location: ' + probs[0]})
+        for at in range(depth):
+            for filler in (None, [], [[0, 2, 0]]):
+                for act in (0, 1):
+                    case = {'lineage': [filler] * at + [[[act, 1, 0]]] + [None] * (depth - at - 1), 'princs': [1], 'perm': 0}
+                    n += 1
+                    _, v = check_case(case, None, 0)
+                    if v:
+                        viol.append(v)
+                        if len(viol) >= 3:
+                            return {'violations': viol, 'searched': n, 'exhaustive': False}
     for lineage in itertools.chain(([a] for a in acls), ([a, b] for a in acls for b in acls)):
         for princs in ([], [1], [0], [1, 0]):
             case = {'lineage': lineage, 'princs': princs, 'perm': 0}
@@ -221,9 +380,16 @@ def replay(ctx, rep):
     case = rep.get('case')
     if case is None:
         return {'violates': False, 'note': 'replay names broken obligations only', 'broken': rep.get('broken_obligations')}
+    if case.get('stream') == 'location':
+        probs = location_check(len(case['lineage']))
+        return {'case': case, 'impl': probs, 'violates': bool(probs)}
     mo = ctx.run_model([case])[0] if ctx.driver_path else None
     m, v = check_case(case, mo, 0)
     got = impl(case)
+    lz = impl(case, lazy=True)
+    if any(lz[k] != got[k] for k in ('permits', 'at', 'allowed', 'allowed_granted')):
+        return {'case': case, 'impl': dict(lz, realisation='lazy parents'), 'impl_attribute_parents': got, 'model': mo,
+                'spec': {'permits': spec(case)}, 'mismatch': m, 'violates': bool(v)}
     for variant in range(1, 98):          # the same case written with other Python objects must decide the same
         alt = impl(case, 0, variant)
         if any(alt[k] != got[k] for k in ('permits', 'at', 'allowed', 'allowed_granted')):
